@@ -66,10 +66,10 @@ class CommitteeCalc(Calculator):
         self.results.update(self.committee(len(atoms)))
 
 
-def make(scheme, fn, lo, hi, ref=REF):
+def make(scheme, fn, lo, hi, ref=REF, symbols="Cu3"):
     from quansino.mc.fbmc import AdaptiveForceBias
 
-    atoms = Atoms("Cu3", positions=[[0, 0, 0], [2.5, 0, 0], [0, 2.5, 0]], cell=[9, 9, 9], pbc=True)
+    atoms = Atoms(symbols, positions=[[0, 0, 0], [2.5, 0, 0], [0, 2.5, 0]], cell=[9, 9, 9], pbc=True)
     atoms.calc = CommitteeCalc()
     atoms.calc.ref = ref
     with warnings.catch_warnings():
@@ -238,7 +238,9 @@ def run(tier: str) -> int:
     # ---- the fallback: no committee data -> reference variance (midpoint), through step() as well -------
     for scheme in ("forces", "energy"):
         for fn in ("tanh", "exp"):
-            afb = make(scheme, fn, 1, 3)
+            # (atoms of different masses: what the driver shows as its delta after a step is the adapted delta, not the
+            # mass-scaled step length of that step)
+            afb = make(scheme, fn, 1, 3, symbols="CuAuH")
             afb.atoms.calc.nvar = None
             afb.atoms.calc.publish(afb.atoms)
             rep.count(("fallback", scheme, fn))
@@ -250,6 +252,23 @@ def run(tier: str) -> int:
             afb.step()
             if not close(afb.delta, 0.03):
                 rep.violation(f"step-uses-published-variance:{scheme}:{fn}", f"zero committee variance through step(): delta = {np.asarray(afb.delta).ravel()[:3]}, expected max 0.03", {})
+    # ---- per-coordinate variances through step() on atoms of different masses, with and without fictitious masses ----
+    for fn in ("tanh", "exp"):
+        for it in range(3 if tier == "quick" else 20):
+            afb = make("forces", fn, 1, 3, symbols="HAuCu")
+            if it % 2:
+                afb.update_masses(np.array([3.0, 50.0, 7.0]))
+            rsl = np.random.RandomState(rep.seed % 1000 + it)
+            nn = rsl.choice([0.0, 1.0], size=(3, 3))
+            afb.atoms.calc.nvar = nn
+            afb.atoms.calc.publish(afb.atoms)
+            rep.count(("step-mixed-masses", fn, it))
+            for _ in range(3):
+                afb.step()
+                want_ = np.where(nn == 0, 0.03, 0.02)     # zero variance -> max; reference variance -> midpoint of [0.01, 0.03]
+                if np.shape(afb.delta) != (3, 3) or not np.all(np.abs(np.asarray(afb.delta) - want_) <= 1e-12):
+                    rep.violation(f"step-delta-mixed-masses:{fn}", f"forces scheme, atoms H/Au/Cu: after step() delta = {np.asarray(afb.delta).round(5).tolist()}, expected {want_.tolist()} (per-coordinate variances {nn.tolist()} x reference)", {"fn": fn, "nvar": nn.tolist()})
+                    break
     rep.add(states=r.distinct, transitions=r.generated, traces_validated_against_impl=nrep, exhaustive=True, histories=ncase, offlattice=noff,
             rule="curve: every n in 0..18 (tanh) / 0..30 (exp) x 2 schemes x 3 bound pairs; histories: every sequence of {set variance n in {none,0,1,2,5,18}, re-assign bounds, update_delta} up to the length bound exported by TLC with the expected delta after each update; non-trivial = more than one action; plus random per-coordinate variances over 12 decades (range, monotonicity, max at zero) and the no-committee fallback through step()")
     rep.assumptions += ["committee arrays: two members (1 -+ n ref) for forces, (E -+ n ref N) for energies, giving variance coefficient exactly n ref up to rounding (tolerance 1e-12 relative)"]
